@@ -6,7 +6,8 @@ R4.2 set_value, exhaustively over (lookup hit/miss) x (type of existing value) x
 R4.3 ValueType::from is the identity on variant names; EvalexprError::expected_type maps each type to its own error;
 R4.4 op-assign in Operator::eval_mut: `X op= e` reads X, applies exactly operator `op`, writes the result back to X, and every
      successful return passes through set_value;
-R4.5 clones are independent: Clone is derived and no shared ownership / reference type occurs in any field.
+R4.5 clones are independent: Clone is derived and no shared ownership / reference type occurs in any field;
+R4.6 set_function: the given function is stored under the identifier whether or not the name was bound (last binding wins), Ok(()).
 Not decided: that HashMap is a map (trusted std) and what right-hand sides evaluate to (C03)."""
 import tables
 from absint import Interp, SYM, C, ADT, OK, ERR, SOME, NONE, UNK, Fork, fmt, is_adt, Budget
@@ -50,6 +51,67 @@ def run(ctx):
     r43(ctx, prog)
     r44(ctx, prog)
     r45(ctx, prog)
+    r46(ctx, prog)
+
+
+def r46(ctx, prog):
+    """set_function binds the name to the function it is given, whether or not the name was bound before (the function lookup of the
+    abstract map model: last binding wins), on its single path, returning Ok(()); the map it writes is `self.functions`."""
+    f = ctx_method(prog, 'HashMapContext', 'set_function', 'context::ContextWithMutableFunctions')
+    if f is None:
+        ctx.unrecognised('R4.6', 'HashMapContext::set_function', 'missing', 'method not found')
+        return
+    ident, func = SYM('identifier'), SYM('function')
+    for hit in (True, False):
+        log = []
+        existing = SYM('old_function')
+        try:
+            ps = [p for p in Interp(prog, hook=map_model(hit, existing, log)).paths(f, [SYM('self'), ident, func]) if p[0] != ('diverge',)]
+        except Budget:
+            ctx.unrecognised('R4.6', 'set_function[%s]' % ('bound' if hit else 'unbound'), 'budget', 'too complex', span=f.span)
+            continue
+        good = len(ps) == 1 and ps[0][0] == OK(('tuple', ()))
+        w = []
+        if good:
+            eff = ps[0][1]
+            w = [('overwrite', e[2][1]) for e in eff if e[0] == '<store>' and e[2][0] == existing] + [x for x in log if x[0] in ('overwrite', 'insert', 'remove')]
+            keys = {fmt(x[1]) for x in log if x[0] == 'lookup'}
+            good = (w == [('overwrite', func)] if hit else w == [('insert', ident, func)]) and keys <= {fmt(ident)}
+        ctx.check(good, 'R4.6', 'set_function[%s]' % ('bound' if hit else 'unbound'), 'last-binding-wins',
+                  'set_function stores the given function under the identifier %s and returns Ok(()) (paths %d, map writes %s)' % ('replacing the earlier binding' if hit else 'as a new binding', len(ps), [(x[0], fmt(x[-1])) for x in w]), span=f.span)
+    ps = Interp(prog).paths(f, [SYM('self'), ident, func])
+    maps = {fmt(e[2][0]) for ret, eff in ps for e in eff if not e[0].startswith('<') and 'HashMap' in e[0] and e[0].split('::')[-1] in ('get_mut', 'get', 'entry', 'insert', 'contains_key') and e[2]}
+    ctx.check(maps == {fmt(('proj', SYM('self'), ('functions',)))}, 'R4.6', 'set_function[map]', 'lookup', 'the binding is written to `self.functions` only (found %s)' % sorted(maps), span=f.span)
+    # clearing forgets everything: each clear_* empties exactly its map(s) with HashMap::clear (or replaces them by new empty maps) on its
+    # single path, and does nothing else to the context
+    M = 'context::HashMapContext::<NumericTypes>::'
+    for name, fields in (('clear_variables', {'variables'}), ('clear_functions', {'functions'}), ('clear', {'variables', 'functions'})):
+        g = prog.fn(M + name)
+        if g is None:
+            ctx.unrecognised('R4.6', 'HashMapContext::' + name, 'missing', 'method not found')
+            continue
+        try:
+            ps = [p for p in Interp(prog).paths(g, [SYM('self')]) if p[0] != ('diverge',)]
+        except Budget:
+            ctx.unrecognised('R4.6', 'HashMapContext::' + name, 'budget', 'too complex', span=g.span)
+            continue
+        cleared, other = set(), []
+        for ret, eff in ps:
+            for e in eff:
+                if e[0] == '<store-field>' and e[2][0] == SYM('self'):
+                    fld = e[2][1][1][0]
+                    v_ = e[2][2]
+                    if v_[0] == 'app' and v_[1].split('::')[-1].split('#')[0] in ('new', 'default') and not v_[2]:
+                        cleared.add(fld)
+                    else:
+                        other.append('%s = %s' % (fld, fmt(v_)[:60]))
+                elif not e[0].startswith('<') and e[2] and e[2][0][0] == 'proj' and e[2][0][1] == SYM('self'):
+                    nm = e[0].split('::')[-1]
+                    if nm == 'clear' and 'HashMap' in e[0] and len(e[2]) == 1:
+                        cleared.add(e[2][0][2][0])
+                    else:
+                        other.append('%s(%s)' % (nm, e[2][0][2][0]))
+        ctx.check(len(ps) == 1 and cleared == fields and not other, 'R4.6', 'HashMapContext::' + name, 'clears', '%s empties exactly %s and touches nothing else (paths %d, emptied %s, other uses %s)' % (name, sorted(fields), len(ps), sorted(cleared), other[:3]), span=g.span)
 
 
 def r41(ctx, prog):
